@@ -256,7 +256,8 @@ def gen_case_c03(rng):
             ks = rng.sample(keys, min(len(keys), rng.choice([1, 2])))
             if rng.random() < 0.3:
                 ks.append(rng.choice(ks))       # the same key named twice: all-or-nothing still applies
-            ops.append([o, [enc(x) for x in ks]])
+            # (the keys are handed over as a list, a tuple, or a one-shot generator)
+            ops.append([o, [enc(x) for x in ks], rng.choice(['list', 'list', 'tuple', 'gen'])])
         elif o == 'badset':
             ops.append([o, enc(k)])
         elif o in ('clear',) and rng.random() < 0.6:
@@ -538,14 +539,20 @@ class Run03(object):
                 return     # klepto's extension; dict_archive/null_archive (like dict) do not offer it
             ks = [dec(x) for x in op[1]]
             self.keys_used.extend(ks)
+            how = op[2] if len(op) > 2 else 'list'
+            if how != 'list':
+                self.note('c03_popkeys_with_%s' % how)
+
+            def given():
+                return tuple(ks) if how == 'tuple' else ((x for x in ks) if how == 'gen' else ks)
             if o == 'popkeysd':
-                r, m, ok = self.apply(lambda: a.popkeys(ks, 'dflt'), lambda: [M.pop(x, 'dflt') for x in ks], 'popkeys(ks, d)', ks)
+                r, m, ok = self.apply(lambda: a.popkeys(given(), 'dflt'), lambda: [M.pop(x, 'dflt') for x in ks], 'popkeys(ks, d)', ks)
             else:
                 def mpop():
                     shadow = dict(M)
                     [shadow.pop(x) for x in ks]      # all-or-nothing: KeyError before any removal
                     return [M.pop(x) for x in ks]
-                r, m, ok = self.apply(lambda: a.popkeys(ks), mpop, 'popkeys(ks)', ks)
+                r, m, ok = self.apply(lambda: a.popkeys(given()), mpop, 'popkeys(%s of ks)' % how, ks)
             if ok and r[0] == 'ret' and not (len(r[1]) == len(m[1]) and all(same_value(x, y) for x, y in zip(r[1], m[1]))):
                 self.bad('wrong-value', 'popkeys returned %r, dict %r' % (_s(r[1]), _s(m[1])), ks)
         elif o == 'setdefault':
